@@ -361,6 +361,12 @@ def run(chk):
     chk.tlc(r, f"LatticeMC {plan['mc']}: property formula as invariant on the specification (design level)")
     if r.invariant_violated:
         raise common.MachineryError(f'design-level violation of {pid} in the specification: {r.tail[-3000:]}')
+    if pid == 'C07':
+        rp = run_tlc('PruneMC', 'PruneMC.cfg' if thorough else 'PruneMC3.cfg', workers=8, timeout=3000)
+        chk.tlc(rp, 'PruneMC: declarative Prune == the operational sort / tie-extension / threshold algorithm, and the '
+                    'selection clause holds after pruning, for EVERY layer up to length 3 (thorough: 4)')
+        if rp.invariant_violated:
+            raise common.MachineryError('Prune lemma violated: ' + rp.tail[-2000:])
     # 2. behaviours: TLC-enumerated + seeded random
     runs = []
     tid = 0
